@@ -4,6 +4,9 @@
 #include <cstdio>
 #include <cmath>
 #include <cstring>
+#include "gm2calc/THDM.hpp"
+#include "gm2calc/gm2_1loop.hpp"
+#include "gm2calc/gm2_2loop.hpp"
 using namespace gm2calc::thdm;
 
 int main(int argc, char** argv)
@@ -32,6 +35,23 @@ int main(int argc, char** argv)
       if (k == 0) { ref1 = a1; ref2 = a2; }
       if (std::abs(a1 - ref1) > 1e-9*std::abs(ref1) + 1e-25) { bad++; std::printf("amu1L depends on the common Higgs mass: %.12e (mh=%g) vs %.12e\n", a1, mh, ref1); }
       if (std::abs(a2 - ref2) > 1e-9*std::abs(ref2) + 1e-25) { bad++; std::printf("amu2L_F_neutral depends on the common Higgs mass: %.12e (mh=%g) vs %.12e\n", a2, mh, ref2); }
+   }
+   // glue: the model-level functions against the loop-level functions fed with the model's getters (SM Higgs mass != default)
+   {
+      gm2calc::thdm::Mass_basis b;
+      b.yukawa_type = gm2calc::thdm::Yukawa_type::type_2; b.mh = 110; b.mH = 400; b.mA = 420; b.mHp = 440; b.sin_beta_minus_alpha = 0.999;
+      b.tan_beta = 3; b.m122 = 40000;
+      gm2calc::SM sm; sm.set_mh(110);
+      gm2calc::thdm::Config cfg; cfg.running_couplings = false;
+      const gm2calc::THDM m(b, sm, cfg);
+      THDM_F_parameters f;
+      f.alpha_em = m.get_alpha_em(); f.mm = m.get_MFe(1); f.mw = m.get_MVWm(); f.mz = m.get_MVZ(); f.mhSM = m.get_sm().get_mh();
+      f.mA = m.get_MAh(1); f.mHp = m.get_MHm(1); f.mh = m.get_Mhh(); f.ml = m.get_MFe(); f.mu = m.get_MFu(); f.md = m.get_MFd();
+      f.yuh = m.get_yuh(); f.yuH = m.get_yuH(); f.yuA = m.get_yuA(); f.yuHp = m.get_yuHp(); f.ydh = m.get_ydh(); f.ydH = m.get_ydH();
+      f.ydA = m.get_ydA(); f.ydHp = m.get_ydHp(); f.ylh = m.get_ylh(); f.ylH = m.get_ylH(); f.ylA = m.get_ylA(); f.ylHp = m.get_ylHp();
+      f.vckm = m.get_sm().get_ckm();
+      const double want = amu2L_F(f), got = gm2calc::calculate_amu_2loop_fermionic(m);
+      if (std::abs(want - got) > 1e-12*std::abs(want)) { bad++; std::printf("calculate_amu_2loop_fermionic = %.12e, loop-level function with the model's quantities = %.12e\n", got, want); }
    }
    std::printf("%d mismatches\n", bad);
    return bad ? 1 : 0;
